@@ -41,7 +41,8 @@ def run_call(c, variant):
             has_n = any(v < 0 for v in c["x"])
             if variant % 3 == 0:
                 t = t.unsqueeze(0)        # (1, A, L) is accepted as well
-            s = utils.characters(t, alphabet=alpha, allow_N=True if has_n else bool(variant % 2))
+            an = True if has_n else bool(variant % 2)
+            s = utils.characters(t, alphabet=alpha, allow_N=[an, numpy.bool_(an), int(an)][(variant // 2) % 3])
             ev["y"] = [ord(ch) for ch in s]
         elif op == "reencode":
             t = base.encode(c["x"], A, DTYPES[variant % 6])
